@@ -206,12 +206,13 @@ class Run:
         return ob
 
     def extract_model(self, model):
+        from . import native
         out = {}
         for name, val in self.inputs.items():
             try:
-                out[name] = self.model_value(model, val)
+                out[name] = native.model_tree(self, model, val)
             except Exception as e:   # pragma: no cover
-                out[name] = '<%s>' % e
+                out[name] = {'opaque': '<%s: %s>' % (type(e).__name__, e)}
         return out
 
     def model_value(self, model, val):
